@@ -212,6 +212,9 @@ EXT.update({
     'numpy.fft.fftshift': _row('fresh', 'lambda a: np.fft.fftshift(a)'),
     'numpy.fft.ifftshift': _row('fresh', 'lambda a: np.fft.ifftshift(a)'),
     'copy.deepcopy': _row('fresh', 'lambda a: copy.deepcopy(a)'), 'copy.copy': _row('join', 'lambda a: copy.copy(a)'),
+    'contextlib.suppress': _row('scalar'),
+    'astropy.nddata.NDData': _row('join', 'lambda a: NDData(a).data'),
+    'astropy.nddata.StdDevUncertainty': _row('join', 'lambda a: StdDevUncertainty(a, copy=False).array'),
     'itertools.chain.from_iterable': _row('join'), 'itertools.chain': _row('join'), 'itertools.product': _row('join'),
     'astropy.table.vstack': _row('fresh', None), 'astropy.table.hstack': _row('fresh', None),
     'astropy.convolution.Gaussian2DKernel': _row('fresh', 'lambda a: Gaussian2DKernel(1.0).array'),
@@ -1121,11 +1124,16 @@ class Translator:
 
     def is_display(self, v, F=None):
         """Expressions that build a NEW container object (whose elements may alias others)."""
+        if isinstance(v, ast.IfExp):
+            return self.is_display(v.body, F) and self.is_display(v.orelse, F)
         if isinstance(v, (ast.List, ast.Dict, ast.Set, ast.ListComp, ast.DictComp, ast.SetComp)):
             return True
         if (isinstance(v, ast.Call) and isinstance(v.func, ast.Attribute) and v.func.attr == '__new__'
                 and isinstance(v.func.value, ast.Name) and v.func.value.id == 'object'):
             return True          # a bare new object: attribute stores on it are container stores
+        if isinstance(v, ast.Call) and F is not None and self.qualify(F, v.func) == 'copy.copy':
+            return True          # a shallow copy is a NEW shell: attribute / item stores on it do not write
+                                 # through to the original (its contents still alias the original's)
         if isinstance(v, ast.Call) and F is not None and self.qualify(F, v.func) in (
                 'astropy.table.QTable', 'astropy.table.Table'):
             return True          # a new table: setting a column stores (a copy of) the values in it
